@@ -96,8 +96,8 @@ func (p *pktConnect) Pack() []byte {
 }
 
 func (c *BaseClient) init() {
-	c.sig = &signaller{}
 	c.mu.Lock()
+	c.sig = &signaller{}
 	c.connClosed = make(chan struct{})
 	c.mu.Unlock()
 	c.initID()
